@@ -605,13 +605,23 @@ func (h *Hist) Step() bool {
 	}
 	w := h.W
 	// parameter change between blocks
-	if h.Cfg.ParamChanges && h.Rng.Chance(1, 25) {
+	if h.Cfg.ParamChanges && h.Rng.Chance(1, 15) {
 		p := h.TssParams
 		switch h.Rng.Intn(3) {
 		case 0:
 			p.SigningPeriod = uint64(h.Rng.Range(1, 6))
 		case 1:
 			p.MaxSigningAttempt = uint64(h.Rng.Range(1, 5))
+			// half of the time aim below the attempt some signing is in right now
+			hi := uint64(0)
+			for _, id := range h.Trk.Order {
+				if s := h.Trk.Signings[id]; s.Success == 0 && s.Failed == 0 && s.Cur() != nil && s.Cur().N > hi {
+					hi = s.Cur().N
+				}
+			}
+			if hi >= 2 && h.Rng.Bool() {
+				p.MaxSigningAttempt = uint64(h.Rng.Range(1, int(hi)-1))
+			}
 		case 2:
 			p.MaxDESize = uint64(h.Rng.Range(1, 6))
 		}
